@@ -510,6 +510,7 @@ def run(rep, tier):
         cut_fields |= um.slice_fields(e.args[0])
     # by shape: the predicate handed to retain captures something read from a field of the collection other than the live metadata
     keeps_registry = False
+    registry_fields = set()
     for e in cut:
         for a in e.args[1:]:
             for o in um.slice_back_op(a):
@@ -518,12 +519,32 @@ def run(rep, tier):
                         fl = um.slice_fields(op_, through=lambda ev: True)
                         if "self" in fl and (fl - {"self", "metadata", "0", "1", "2"}):
                             keeps_registry = True
+                            registry_fields |= fl - {"self", "metadata", "0", "1", "2"}
     filtered = {"btree_indexes", "bm25_indexes", "hnsw_indexes"} <= cut_fields and keeps_registry
     rep.ob("R02.9", "unclaimed-metadata-names-only-persisted-indexes|store_metadata_unclaimed", flushed_first or not live_registry or filtered,
            "store_metadata_unclaimed (save_extension, remove_extension, cleanup_removed_index) PUTs the live metadata registry without the `indexes before metadata` "
            "order of flush_inner: an index created in this handle whose postings exist only in memory becomes durably registered - after a crash it bootstraps "
            "empty, create_*_index_nx swallows AlreadyExists and the repair scan only covers ids above the checkpoint, so `score == 7` answers [] for documents 1-3 for good",
            (wr_meta[0].where() if wr_meta else um.file))
+
+    if filtered and not flushed_first:
+        # the registry of persisted indexes is only as good as its last refresh: the claimed writer (store_metadata, behind the
+        # checkpoint's store_indexes) assigns it behind its acknowledged metadata PUT, on the way to every successful return
+        smf = prog.fn(anda.COLL + "::store_metadata")
+        smb = prog.async_body(smf) or smf
+        rep.saw(smb, len(smb.events))
+        puts_ = [e for e in smb.calls_named(r"^anda_db::storage::Storage::(put|put_bytes)$")]
+        refresh = [e for e in smb.calls_named(r"lock_api::rwlock::RwLock::<R, T>::write$|Mutex::<R, T>::lock$|Mutex::<T>::lock$")
+                   if registry_fields & anda.recv_fields(smb, e)]
+        okr_ = [b for b in _ok_return_blocks(smb) if any(smb.dominates(w.block, b) for w in puts_)]
+        rb_ = {e.block for e in refresh}
+        rep.ob("R02.9", "persisted-index-registry-refreshed|store_metadata",
+               bool(puts_) and bool(refresh) and bool(okr_) and all(any(smb.dominates(w.block, e.block) for w in puts_) for e in refresh)
+               and all(smb.must_pass(rb_, [b], start=w.block) for w in puts_ for b in okr_),
+               "store_metadata_unclaimed cuts the snapshot it writes down to the registry of persisted indexes (%s), and the checkpoint's store_metadata never "
+               "refreshes that registry behind its metadata PUT: an index created and checkpointed in this session is dropped from meta.cbor by the next "
+               "save_extension / index removal, and after a reopen the collection no longer loads it (its documents stay unindexed)" % ", ".join(sorted(registry_fields)),
+               (puts_[0].where() if puts_ else smb.file))
 
     return rep.finish(EXPLAIN)
 
